@@ -159,7 +159,7 @@ theorem done_bin (name : String) (a b : Ast) (ta tb : List Tok) (qa qb : Nat) (h
     have hfn := finalName_bin name pva hpva
     have hop : step ⟨spa.map SItem.op ++ bump s.st, ita ++ s.out, pva⟩ (.opr name) =
         .ok ⟨.op name :: bump s.st, a :: s.out, .opr⟩ := by
-      simp only [step, hnp, false_and, if_false, oprStep, hfn, hp, if_true, f1a (prec name) hqa,
+      simp only [step, hpva, not_true_eq_false, and_false, if_false, hnp, oprStep, hfn, hp, if_true, f1a (prec name) hqa,
         popWhile_stops (prec name) s.st hs]
     rw [runToks_cons _ _ _ _ hop (by simp)]
     have h2 := rb ⟨.op name :: bump s.st, a :: s.out, .opr⟩ (Or.inr (Or.inr rfl)) ⟨prec name, hp, hqb⟩
@@ -211,7 +211,7 @@ theorem done_sign (name : String) (a : Ast) (ta : List Tok) (qa : Nat) (hn : nam
     have hne : name ≠ signSym name := by
       have := g3; rw [g1] at this; exact this
     have hstep : step s (.opr (signSym name)) = .ok ⟨.op name :: bump s.st, s.out, .opr⟩ := by
-      simp only [step, g2, false_and, if_false, oprStep, g1, h1, hne, popWhile_stops 7 s.st hs s.out, h4]
+      simp only [step, signSym_pm name, false_and, if_false, oprStep, g1, h1, hne, popWhile_stops 7 s.st hs s.out, h4]
     rw [runToks_cons _ _ _ _ hstep (by simp)]
     have := ra ⟨.op name :: bump s.st, s.out, .opr⟩ (Or.inr (Or.inr rfl)) ⟨7, h1, hqa⟩
     rw [this]
@@ -386,19 +386,19 @@ end
 def argM (a : Ast) : List Tok := if isEmptyArg a then [] else toksM a
 
 /-- trees the parser can build from operators, signs, percentages and calls (with empty arguments) -/
-inductive WF : Ast → Prop
-  | operand (k : OKind) (text : String) : WF (.operand k text)
-  | bin (name : String) (a b : Ast) : name ∈ binNames → WF a → WF b → WF (.op name [a, b])
-  | sign (name : String) (a : Ast) : name ∈ signNames → WF a → WF (.op name [a])
-  | percent (a : Ast) : WF a → WF (.op "%" [a])
-  | call (name : String) (args : List Ast) : (∀ a ∈ args, isEmptyArg a = false → WF a) →
+inductive WFTree : Ast → Prop
+  | operand (k : OKind) (text : String) : WFTree (.operand k text)
+  | bin (name : String) (a b : Ast) : name ∈ binNames → WFTree a → WFTree b → WFTree (.op name [a, b])
+  | sign (name : String) (a : Ast) : name ∈ signNames → WFTree a → WFTree (.op name [a])
+  | percent (a : Ast) : WFTree a → WFTree (.op "%" [a])
+  | call (name : String) (args : List Ast) : (∀ a ∈ args, isEmptyArg a = false → WFTree a) →
       (∀ a ∈ args, isEmptyArg a = true → a = .operand .empty "") → (∀ a, args = [a] → isEmptyArg a = false) →
-      WF (.call name args)
+      WFTree (.call name args)
 
 theorem wrapT_ne_nil (c : Bool) (ts : List Tok) (h : ts ≠ []) : wrapT c ts ≠ [] := by
   cases c <;> simp [wrapT, h]
 
-theorem toksM_ne_nil (t : Ast) (h : WF t) : toksM t ≠ [] := by
+theorem toksM_ne_nil (t : Ast) (h : WFTree t) : toksM t ≠ [] := by
   cases h with
   | operand k text => simp [toksM]
   | bin name a b _ _ _ => simp [toksM]
@@ -424,7 +424,7 @@ theorem toksMSep_eq (args : List Ast) : toksMSep args = joinSep (args.map argM) 
     rw [ih]
 
 /-- the minimal spelling is a spelling -/
-theorem toksM_sp (t : Ast) (h : WF t) : Sp t (toksM t) (rootPrec t) := by
+theorem toksM_sp (t : Ast) (h : WFTree t) : Sp t (toksM t) (rootPrec t) := by
   induction h with
   | operand k text => simp only [toksM, rootPrec]; exact Sp.operand k text
   | bin name a b hn _ _ iha ihb =>
@@ -490,7 +490,7 @@ theorem toksM_sp (t : Ast) (h : WF t) : Sp t (toksM t) (rootPrec t) := by
 
 /-- **precedence and associativity determine the tree**: the spelling with the fewest parentheses of any
 well-formed tree is read back as that tree -/
-theorem parse_min (t : Ast) (h : WF t) : parseToks (toksM t) = .ok t :=
+theorem parse_min (t : Ast) (h : WFTree t) : parseToks (toksM t) = .ok t :=
   parse_spelling t (toksM t) (rootPrec t) (toksM_sp t h)
 
 end XL
